@@ -1454,6 +1454,15 @@ func (db *DB) checkpointIfNeeded(ctx context.Context, exec *syncExecutor, origWA
 		return err
 	}
 
+	// Nothing has been synced since the last checkpoint and the WAL holds at
+	// most the single bookkeeping frame that checkpoint wrote. Checkpointing
+	// again would only produce another bookkeeping frame plus an LTX file for
+	// it, so with MinCheckpointPageN = 1 every idle sync would repeat this
+	// forever.
+	if !exec.state.syncedSinceCheckpoint && newWALSize <= calcWALSize(uint32(db.pageSize), 1) {
+		return nil
+	}
+
 	// Priority 2: Regular checkpoint at min threshold (PASSIVE mode)
 	if newWALSize >= calcWALSize(uint32(db.pageSize), uint32(db.MinCheckpointPageN)) {
 		if _, err := db.checkpointWithExecutor(ctx, CheckpointModePassive, exec); err != nil {
